@@ -53,6 +53,8 @@ PlanOK(r) ==
      /\ \A i \in 1..Len(pi) : Permitted(r, pi[i][1])
      /\ \A m \in RingNodes(r) : Permitted(r, m) => \E i \in 1..Len(pi) : pi[i][1] = m
      /\ \A i, j \in 1..Len(pi) : i < j => Class(r, R, pi[i][1]) <= Class(r, R, pi[j][1])
+     \* P1 through the iterator: giving shard-less targets a concrete shard names no node more often than pick + fallback do
+     /\ \A m \in RingNodes(r) : Cardinality({i \in 1..Len(pi) : pi[i][1] = m}) = Cardinality({i \in 1..n : p[i][1] = m})
   /\ (r.lwt = 1) =>                                                     \* P5 LWT: one deterministic ring order
         /\ \A k \in 0..2 :
              [i \in 1..Len(SelectSeq(repl, LAMBDA e : Class(r, R, e[1]) = k)) |-> SelectSeq(repl, LAMBDA e : Class(r, R, e[1]) = k)[i][1]]
